@@ -371,7 +371,7 @@ func init() {
 		kinds:      []string{"notrace", "followup", "snap.reg", "snap.decs", "snap.foreign", "info.onreject", "crash", "verdict", "exec.extra", "exec.inreg", "viz.misbehaved"},
 		run: genericRun(stagePlan{
 			covers: []coverPlan{
-				randCover("reject", tweak(small, func(f *fam.Features) { f.Types = 2; f.PNamed = 0.05; f.Ctors = 3; f.Decs = 1; f.PInvalid = 0.7 }), rec, 40, 400, 0),
+				randCover("reject", tweak(small, func(f *fam.Features) { f.Types = 2; f.PNamed = 0.05; f.Ctors = 3; f.Decs = 1; f.PInvalid = 0.7 }), deferBoth, 40, 400, 0),
 				pathsCover(rec, 30, 400, 0, func(f *fam.Features) { f.PInvalid = 0.7 }),
 				structCover("groupcycle", fam.GroupCycle, rec, false, 16, 150, 2, 0),
 				digraphCover("digraphs-req", "req", rec, 100, 1500),
@@ -414,6 +414,7 @@ func init() {
 				structCover("groups", fam.Groups, rec, false, 12, 40, 2, 0),
 				randCover("scopes", tweak(small, func(f *fam.Features) { f.Scopes = 3; f.Types = 2; f.PExport = 0.4; f.Decs = 0 }), rec, 40, 400, 0),
 				pathsCover(rec, 30, 400, 0),
+				structCover("deeptree", fam.DeepTree, rec, false, 8, 0, 2, 0),
 			},
 			traces: stdTraces("scopes", tweak(medium, func(f *fam.Features) { f.Scopes = 4; f.PExport = 0.4 }), 0, stdOpts)})})
 
@@ -486,8 +487,8 @@ func init() {
 				structCover("chain", fam.Chain, rec, false, 60, 500, 2, 0),
 				wideCover("chain", fam.Chain, rec, false, 300, 0),
 				structCover("shadow", fam.Shadow, rec, false, 30, 0, 2, 0),
-				structCover("groups", fam.Groups, rec, false, 12, 40, 2, 0),
-				wideCover("groups", fam.Groups, rec, false, 60, 0),
+				structCover("groups", fam.Groups, rec, false, 16, 60, 2, 0),
+				wideCover("groups", fam.Groups, rec, false, 100, 0),
 				randCover("dec-rand", tweak(small, decy), rec, 40, 400, 0),
 			},
 			traces: stdTraces("dec", tweak(medium, decy), 0, stdOpts)})})
@@ -604,7 +605,8 @@ func init() {
 				libCover("lib", recBoth, true, 6, 60, 2),
 				libGroupsCover(recBoth, true, 30, 600, 1),
 			},
-			traces: stdTraces("callbacks", tweak(medium, func(f *fam.Features) { f.PCb = 0.7 }), 0.25, recBoth)})})
+			traces: stdTraces("callbacks", tweak(medium, func(f *fam.Features) { f.PCb = 0.7 }), 0.25, recBoth),
+			sig:    true})})
 }
 
 func replaySpecial(def *propDef, f *Finding) int {
